@@ -435,26 +435,20 @@ func newWorld(name string, setup []string, wire string) (*world, error) {
 	w := &world{name: name, eng: core.NewEng("d")}
 	w.s = w.eng.NewSess()
 	if wire != "" {
-		srv, err := w.eng.StartServer()
-		if err != nil {
-			w.eng.Close()
-			return nil, err
-		}
-		w.srv = srv
 		params := ""
 		if wire == "interpolate" {
 			params = "interpolateParams=true"
 		}
-		db, err := srv.Open("root", "", params)
+		srv, db, err := g10lib.StartServer(w.eng, params)
 		if err != nil {
-			w.close()
+			w.eng.Close()
 			return nil, err
 		}
-		w.db = db
+		w.srv, w.db = srv, db
 	}
 	for _, q := range setup {
 		if c := w.execLit(q); c != "" {
-			panic("setup statement failed in world " + name + ": " + q + ": " + c)
+			panic("setup statement failed in world " + name + ": " + c + ": " + q)
 		}
 	}
 	return w, nil
@@ -820,6 +814,14 @@ func runCase(r *core.Run, i int) {
 				}
 			}
 		}
+		if useWire && !wireOK && !t.sel {
+			// not comparable on the wire (see wireOK): keep the two wire worlds in step with each other
+			cl, cp := WL.execLit(inl), WP.execLit(inl)
+			if cl != cp {
+				r.Violation("interleaved-literal-diverges:skipped-exec", map[string]any{"case": i, "setup": setup, "history": history, "stmt": inl, "class_WL": cl, "class_WP": cp})
+				return
+			}
+		}
 		if afterDDL {
 			r.Count("after-ddl.exec", 1)
 		}
@@ -838,7 +840,7 @@ func runCase(r *core.Run, i int) {
 			var first string
 			for wi, w := range worlds {
 				c := w.execLit(q)
-				if wi == 0 {
+				if wi == 0 || wi == 3 { // reference groups: {L, A, B} and {WL, WP}
 					first = c
 				} else if c != first {
 					// same literal statement, same state: must behave alike; if not the worlds have already diverged
